@@ -244,10 +244,19 @@ def parse_assumptions(log_text):
 # --------------------------------------------------------------------------
 # model / implementation runners
 # --------------------------------------------------------------------------
+def _big_stack():
+    """the extracted model recurses over unary naturals and long lists: lift the stack limit for the child process"""
+    import resource
+    try:
+        resource.setrlimit(resource.RLIMIT_STACK, (resource.RLIM_INFINITY, resource.RLIM_INFINITY))
+    except (ValueError, OSError):
+        pass
+
+
 def run_lines(exe, lines, timeout=3600, env=None):
     data = "\n".join(lines) + "\n"
     p = subprocess.run([exe], input=data, stdout=subprocess.PIPE, stderr=subprocess.PIPE,
-                       text=True, timeout=timeout, env=env or ENV)
+                       text=True, timeout=timeout, env=env or ENV, preexec_fn=_big_stack)
     if p.returncode != 0:
         raise BuildError("run " + exe, p.stderr[-2000:])
     out = p.stdout.split("\n")
